@@ -9,7 +9,7 @@ ID = 'C07'
 RULE = ('A case is (file, optional cut = keep only the first k result times, list of navigation actions with abstract '
         'arguments resolved against the file at run time). Actions: first, last, next, prev, index=i (0, n-1, -1, -n, middle, '
         'any i in [-n, n-1]), time=t and step=s (exact, between two results at a fraction, before the first, after the last), '
-        'history(one of two fixed selections). exhaustive: every sequence of length <= 3 (4 in thorough) over a 16-letter '
+        'history(one of two fixed selections). exhaustive: every sequence of length <= 3 (4 in thorough) over a 17-letter '
         'alphabet on the shipped files under 100 kB with >= 2 times and on 2-time cuts of others, every sequence of length <= 2 '
         'on every other file with >= 2 times; random: Hypothesis lists of up to 40 actions on any file with >= 2 times and on '
         'truncated copies with 1..N-1 times. After every action (index, time, step, every table: row names, column names, '
@@ -23,7 +23,7 @@ ALPHABET = [['first'], ['last'], ['next'], ['prev'],
             ['index', 'zero'], ['index', 'neg1'], ['index', 'negn'], ['index', 'mid'],
             ['time', 'exact', 1], ['time', 'between', 0, 0.3], ['time', 'before'], ['time', 'after'],
             ['step', 'exact', 0], ['step', 'between', 0, 0.7],
-            ['history', 0], ['history', 1]]
+            ['history', 0], ['history', 1], ['history', 2]]
 
 # ------------------------------------------------------------------------------------------------
 
@@ -82,7 +82,7 @@ def random_case(draw):
         st.one_of(st.tuples(st.sampled_from(['time', 'step']), st.just('exact'), k),
                   st.tuples(st.sampled_from(['time', 'step']), st.just('between'), k, frac),
                   st.tuples(st.sampled_from(['time', 'step']), st.sampled_from(['before', 'after']))).map(list),
-        st.tuples(st.just('history'), st.integers(0, 1)).map(list))
+        st.tuples(st.just('history'), st.integers(0, 2)).map(list))
     ops = draw(st.lists(op, min_size=1, max_size=40))
     return {'file': rel, 'cut': cut, 'ops': ops}
 
@@ -209,10 +209,17 @@ def run_case(case, R):
                     x, expect = resolve_value('step', base['fullsteps'], op)
                     lst.step = x; shown = 'step=%r' % x
                 elif name == 'history':
-                    sel = sels[op[1] % 2]
-                    h = lst.history(sel)
-                    expect = {cur}; shown = 'history(%r)' % (sel,)
-                    if h is None: R.fail('nav:history:none', '%s: history(%r) returned None' % (key, sel))
+                    if op[1] % 3 == 2:
+                        # a selection none of whose entries exists in this listing: a legal call that yields nothing
+                        sel = [('e', 'no such row', sels[0][2])]
+                        h = lst.history(sel)
+                        expect = {cur}; shown = 'history(%r)' % (sel,); cls = 'history-nothing-valid'
+                        if h is not None: R.label('history-of-unknown-row-returned-something')
+                    else:
+                        sel = sels[op[1] % 3]
+                        h = lst.history(sel)
+                        expect = {cur}; shown = 'history(%r)' % (sel,)
+                        if h is None: R.fail('nav:history:none', '%s: history(%r) returned None' % (key, sel))
                 else:
                     raise HarnessError('unknown action %r' % (op,))
             trail.append(shown)
